@@ -130,7 +130,7 @@ def obligations(tier: str):
         if rep == "dsge":
             add(f"{rep}_f3b_create", fixture="f3b", rep=rep, decider="grow", max_depth=2, gene_length=gl)
         else:  # one bare base type at a time (the three multiply: wide-range int synthesis alone has ~440 paths)
-            for v in ("BI", "BS") + (("BFB",) if T else ()):  # BFB: float from two gene-backed draws x bool, > 600 paths: thorough tier
+            for v in ("BI", "BS"):  # (BFB - a float from two gene-backed draws x bool - did not exhaust in 5000 s; tree / dSGE cover it, C08 f3f covers GE floats)
                 add(f"{rep}_f3b_{v}_create", fixture="f3b", grammar_fn="g_" + v, rep=rep, decider="grow", max_depth=2, gene_length=gl, timeout=250)
         add(f"{rep}_f2_create", fixture="f2", rep=rep, decider="grow", max_depth=2 if rep != "dsge" else 3, gene_length=gl)
         # GE / SGE / stack genes are fully symbolic already at creation, so mapping created genotypes
